@@ -184,7 +184,7 @@ static bool cron_field(const std::string &w) {
 static std::string show_next(bool ok, uint32_t r) { return ok ? "P next=" + std::to_string(r) : std::string("P next=none"); }
 
 int main(int argc, char **argv) {
-    setenv("TZ", "UTC", 1); tzset();
+    setenv("TZ", "VRF-3", 1); tzset();      // fixed system zone UTC+3, no DST (model: sysOffset)
     LogOutput_Disable();
     vt::enable(1000, kWall0);
     loop = event::Loop::New(argc > 1 ? argv[1] : "epoll");
